@@ -8,10 +8,11 @@ import re
 from engine import AnalysisError
 from engine.srcmodel import walk_shallow, norm, parent
 from engine.util import (call_name, contains, enumerate_paths, fstring_holes, fstring_template, get_method, is_attr_of,
-                         single_def_value, in_body)
+                         single_def_value, in_body, inline_locals)
 from engine.cfg import stmt_of
 from engine.dataflow import assigned_value
 from . import c16 as _c16
+from . import _roles_util as _R
 
 PROPERTY = "C04"
 IR = "pyrates/ir/circuit.py"
@@ -207,9 +208,23 @@ def _def_stmt(ctx, f, e):
     return None
 
 
-def _extent_source(e, var):
+def _is_var_item(ctx, f, x, var, key, depth=0):
+    """x denotes var[key]: the subscript itself, or a local bound to it by its single reaching definition (`values = var['value']`;
+    for the mutable value list an alias is the same object)."""
+    if isinstance(x, ast.Subscript) and isinstance(x.value, ast.Name) and x.value.id == var and isinstance(x.slice, ast.Constant) \
+            and x.slice.value == key:
+        return True
+    if isinstance(x, ast.Name) and depth < 3 and getattr(x, "_parent", None) is not None:
+        v = single_def_value(ctx, f, x)
+        return v is not None and _is_var_item(ctx, f, v, var, key, depth + 1)
+    return False
+
+
+def _extent_source(e, var, ctx=None, f=None):
     """classify an extent expression of dict `var`: 'shape' for var['shape'][0], 'value' for len(var['value']) / shape(var['value'])[0]"""
     def is_var(x, key):
+        if ctx is not None and key == "value":
+            return _is_var_item(ctx, f, x, var, key)
         return isinstance(x, ast.Subscript) and isinstance(x.value, ast.Name) and x.value.id == var \
             and isinstance(x.slice, ast.Constant) and x.slice.value == key
     if isinstance(e, ast.Subscript) and isinstance(e.slice, ast.Constant) and e.slice.value == 0:
@@ -258,15 +273,30 @@ def r2_append_ranges(ctx, rid):
     ctx.require(len(shape_stores) == 1, f"{rid}: expected one store of {varname}['shape'] in append_values, found {len(shape_stores)}")
     sst = shape_stores[0]
 
+    def is_value_list(r):
+        return _is_var_item(ctx, f, r, varname, "value")
+
     def is_grow(n):
-        if not isinstance(n, ast.stmt):
+        """statement n grows the value list of the variable: .append/.extend/.insert on it (or on a local alias of it), `+=`, or a call
+        of a private helper that does so with the list it is handed"""
+        if isinstance(n, ast.AugAssign) and isinstance(n.op, ast.Add) and is_value_list(n.target):
+            return True
+        if not isinstance(n, ast.Expr):
             return False
-        for c in ast.walk(n) if isinstance(n, ast.Expr) else []:
-            if isinstance(c, ast.Call) and call_name(c) in ("append", "extend") and isinstance(c.func, ast.Attribute):
-                r = c.func.value
-                if isinstance(r, ast.Subscript) and isinstance(r.value, ast.Name) and r.value.id == varname and isinstance(r.slice, ast.Constant) \
-                        and r.slice.value == "value":
-                    return True
+        for c in ast.walk(n):
+            if not isinstance(c, ast.Call):
+                continue
+            if call_name(c) in ("append", "extend", "insert") and isinstance(c.func, ast.Attribute) and is_value_list(c.func.value):
+                return True
+            if any(is_value_list(a) for a in c.args) or any(is_value_list(k.value) for k in c.keywords):
+                g = _R.private_helper(ctx, f, c)
+                binding = _R.bind_args(c, g) if g is not None else None
+                if binding:
+                    handed = {p for p, a in binding.items() if is_value_list(a)}
+                    for cc in walk_shallow(g.node):
+                        if isinstance(cc, ast.Call) and call_name(cc) in ("append", "extend", "insert") and isinstance(cc.func, ast.Attribute) \
+                                and isinstance(cc.func.value, ast.Name) and cc.func.value.id in handed:
+                            return True
         return False
     grows = [s for s in cfg.stmts() if is_grow(s)]
     ctx.require(grows, f"{rid}: no growth of {varname}['value'] found in append_values")
@@ -274,8 +304,8 @@ def r2_append_ranges(ctx, rid):
 
     # (1) the shape is recomputed from the grown value list, after the growth on every path
     recomputed = isinstance(sst.value, ast.Call) and call_name(sst.value) == "shape" and sst.value.args and \
-        _extent_source(ast.Subscript(value=sst.value, slice=ast.Constant(value=0), ctx=ast.Load()), varname) == "value"
-    if not recomputed and not (isinstance(sst.value, ast.Tuple) and len(sst.value.elts) >= 1 and _extent_source(sst.value.elts[0], varname) == "value"):
+        _extent_source(ast.Subscript(value=sst.value, slice=ast.Constant(value=0), ctx=ast.Load()), varname, ctx, f) == "value"
+    if not recomputed and not (isinstance(sst.value, ast.Tuple) and len(sst.value.elts) >= 1 and _extent_source(sst.value.elts[0], varname, ctx, f) == "value"):
         raise AnalysisError(f"{rid}: `{norm(sst)}` does not recompute the shape from {varname}['value'] (unrecognised form)")
     first_in_body = inner.body[0]
     skip = cfg.reachable_avoiding(inner, sst, lambda n: is_grow(n))
@@ -288,7 +318,7 @@ def r2_append_ranges(ctx, rid):
     # (2) old extent
     def position(expr_pair, which):
         e, at = expr_pair
-        src = _extent_source(e, varname)
+        src = _extent_source(e, varname, ctx, f)
         if src is None:
             return None, None, at
         if src == "shape":
@@ -362,8 +392,19 @@ def r2_append_ranges(ctx, rid):
         ctx.violation(rid, ext, erets[0], f"extend returns `{norm(rv)}`, not the ranges append_values computed for the appended node's values")
     incs = [s for s in ecfg.stmts() if (isinstance(s, ast.AugAssign) and is_attr_of(s.target, ext.self_name, "length"))
             or (isinstance(s, ast.Assign) and any(is_attr_of(t, ext.self_name, "length") for t in s.targets))]
-    one = len(incs) == 1 and isinstance(incs[0], ast.AugAssign) and isinstance(incs[0].op, ast.Add) and isinstance(incs[0].value, ast.Constant) \
-        and incs[0].value.value == 1 and not any(isinstance(a, (ast.For, ast.While, ast.If)) for a in _anc(incs[0]) if a is not ext.node and not isinstance(a, ast.ClassDef))
+
+    def by_one(s):
+        """self.length += 1  /  self.length = self.length + 1  /  self.length = 1 + self.length"""
+        if isinstance(s, ast.AugAssign):
+            return isinstance(s.op, ast.Add) and isinstance(s.value, ast.Constant) and s.value.value == 1 and s.value.value is not True
+        v = _inline(ctx, ext, s.value)
+        if isinstance(v, ast.BinOp) and isinstance(v.op, ast.Add):
+            for a, b in ((v.left, v.right), (v.right, v.left)):
+                if is_attr_of(a, ext.self_name, "length") and isinstance(b, ast.Constant) and b.value == 1 and b.value is not True:
+                    return True
+        return False
+    one = len(incs) == 1 and by_one(incs[0]) \
+        and not any(isinstance(a, (ast.For, ast.While, ast.If)) for a in _anc(incs[0]) if a is not ext.node and not isinstance(a, ast.ClassDef))
     if one:
         ctx.ok(rid, ext, incs[0], "the node's length advances by exactly one per appended node")
     else:
@@ -388,19 +429,38 @@ def r2_append_ranges(ctx, rid):
                 ctx.ok(rid, cf, d, "on a cache hit the ranges are those returned by extending the cached node that is handed back", label="cache hit ranges")
             else:
                 ctx.violation(rid, cf, d, f"the ranges come from extending `{val.func.value.id}` but the node handed back is `{node_name}`", label="cache hit ranges")
-        elif isinstance(val, ast.DictComp):
-            v = val.value
-            it = val.generators[0].iter if len(val.generators) == 1 else None
-            tgt = val.generators[0].target if it is not None else None
-            good = isinstance(v, ast.Tuple) and len(v.elts) == 2 and isinstance(v.elts[0], ast.Constant) and v.elts[0].value == 0 \
-                and isinstance(tgt, ast.Tuple) and len(tgt.elts) == 2 and isinstance(tgt.elts[1], ast.Name) and isinstance(v.elts[1], ast.Name) \
-                and v.elts[1].id == tgt.elts[1].id and isinstance(val.key, ast.Name) and isinstance(tgt.elts[0], ast.Name) and val.key.id == tgt.elts[0].id \
-                and isinstance(it, ast.Call) and call_name(it) == "items" and "var_lengths" in ast.unparse(it) \
-                and node_name is not None and ast.unparse(it).startswith(node_name + ".")
+        elif isinstance(val, ast.DictComp) or _empty_dict(val):
+            if isinstance(val, ast.DictComp):
+                key_e, v = val.key, val.value
+                it = val.generators[0].iter if len(val.generators) == 1 and not val.generators[0].ifs else None
+                tgt = val.generators[0].target if it is not None else None
+                shown = norm(val)
+            else:
+                # ranges = {}; for key, n in <node>.op_graph.var_lengths.items(): ranges[key] = (0, n)
+                fills = [s for s in ccfg.stmts() if isinstance(s, ast.Assign) and len(s.targets) == 1 and isinstance(s.targets[0], ast.Subscript)
+                         and isinstance(s.targets[0].value, ast.Name) and s.targets[0].value.id == rn.id and ccfg.dominates(d, s)]
+                other = [s for s in ccfg.stmts() if isinstance(s, ast.Expr) and isinstance(s.value, ast.Call) and isinstance(s.value.func, ast.Attribute)
+                         and isinstance(s.value.func.value, ast.Name) and s.value.func.value.id == rn.id]
+                loops = [a for a in _anc(fills[0]) if isinstance(a, ast.For)] if len(fills) == 1 else []
+                if len(fills) != 1 or other or len(loops) != 1 or not ccfg.dominates(d, loops[0]) or parent(fills[0]) is not loops[0]:
+                    raise AnalysisError(f"{rid}: cannot follow how the ranges of a cache miss are filled in cache_func (unrecognised form)")
+                key_e, v, it, tgt = fills[0].targets[0].slice, fills[0].value, loops[0].iter, loops[0].target
+                shown = norm(fills[0])
+            if not (isinstance(v, ast.Tuple) and len(v.elts) == 2 and isinstance(tgt, ast.Tuple) and len(tgt.elts) == 2
+                    and all(isinstance(x, ast.Name) for x in tgt.elts) and isinstance(it, ast.Call) and call_name(it) == "items"
+                    and isinstance(it.func, ast.Attribute) and not it.args):
+                raise AnalysisError(f"{rid}: ranges of a cache miss `{shown}` are not built from the (key, length) items of a mapping (unrecognised form)")
+            from engine.srcmodel import dotted as _dotted
+            src_chain = _dotted(_inline(ctx, cf, it.func.value)) or ""
+            if not src_chain:
+                raise AnalysisError(f"{rid}: cannot tell which mapping `{norm(it)}` iterates in cache_func (unrecognised form)")
+            good = isinstance(v.elts[0], ast.Constant) and v.elts[0].value == 0 and v.elts[0].value is not False \
+                and isinstance(v.elts[1], ast.Name) and v.elts[1].id == tgt.elts[1].id and isinstance(key_e, ast.Name) and key_e.id == tgt.elts[0].id \
+                and node_name is not None and src_chain.startswith(node_name + ".") and src_chain.endswith(".var_lengths")
             if good:
                 ctx.ok(rid, cf, d, "on a cache miss every variable of the new node gets the range (0, its length)", label="cache miss ranges")
             else:
-                ctx.violation(rid, cf, d, f"on a cache miss the ranges `{norm(val)}` are not (0, length) of the new node's own variables", label="cache miss ranges")
+                ctx.violation(rid, cf, d, f"on a cache miss the ranges `{shown}` are not (0, length) of the new node's own variables", label="cache miss ranges")
         else:
             raise AnalysisError(f"{rid}: unrecognised definition of the ranges in cache_func: {norm(d)}")
     # var_lengths = shape[0] if shape else 1
@@ -414,6 +474,10 @@ def r2_append_ranges(ctx, rid):
         ctx.ok(rid, vl, sts[0], "var_lengths is the first extent of the variable's shape (1 for scalars)", nontrivial=False)
     else:
         ctx.violation(rid, vl, sts[0], f"var_lengths `{norm(val)}` is not shape[0] (1 for an empty shape)")
+
+
+def _empty_dict(e):
+    return (isinstance(e, ast.Dict) and not e.keys) or (isinstance(e, ast.Call) and call_name(e) == "dict" and not e.args and not e.keywords)
 
 
 def _inline_keep(ctx, f, e):
@@ -455,40 +519,89 @@ def r3_group_edges(ctx, rid):
     cls = ctx.repo.get_class(FE, "CircuitTemplate")
     f = get_method(ctx, cls, "_group_edges")
     cfg = ctx.cfg(f)
-    rets = [s for s in cfg.stmts() if isinstance(s, ast.Return)]
+    rets = [s for s in cfg.stmts() if isinstance(s, ast.Return) and s.value is not None]
     ctx.require(len(rets) == 1 and isinstance(rets[0].value, ast.Name), f"{rid}: _group_edges no longer returns one named collection")
     col = rets[0].value.id
-    tests = [s for s in cfg.stmts() if isinstance(s, ast.If) and isinstance(s.test, ast.Compare) and len(s.test.ops) == 1
-             and isinstance(s.test.ops[0], (ast.In, ast.NotIn)) and isinstance(s.test.comparators[0], ast.Name) and s.test.comparators[0].id == col]
+
+    def member_test(e):
+        """(key expr, True if `key in col` / False if `key not in col`) for a membership test against the collection"""
+        pol = True
+        while isinstance(e, ast.UnaryOp) and isinstance(e.op, ast.Not):
+            e, pol = e.operand, not pol
+        if isinstance(e, ast.Compare) and len(e.ops) == 1 and isinstance(e.ops[0], (ast.In, ast.NotIn)):
+            c = e.comparators[0]
+            if isinstance(c, ast.Call) and call_name(c) == "keys" and isinstance(c.func, ast.Attribute) and not c.args:
+                c = c.func.value
+            if isinstance(c, ast.Name) and c.id == col:
+                return e.left, pol == isinstance(e.ops[0], ast.In)
+        return None
+    tests = [s for s in cfg.stmts() if isinstance(s, ast.If) and member_test(s.test) is not None]
     ctx.require(len(tests) == 1, f"{rid}: expected one membership test against `{col}`, found {len(tests)}")
     t = tests[0]
-    key_dump = ast.dump(t.test.left)
-    merge_body, create_body = (t.body, t.orelse) if isinstance(t.test.ops[0], ast.In) else (t.orelse, t.body)
-    ctx.require(merge_body and create_body, f"{rid}: the merge test has no else branch (unrecognised form)")
+    key_expr, positive = member_test(t.test)
     outer = [a for a in _anc(t) if isinstance(a, ast.For)]
     ctx.require(len(outer) == 1, f"{rid}: the merge test is not directly inside the loop over edges")
     outer = outer[0]
 
-    def inside(body, n):
-        return any(contains(b, n) for b in body)
+    def same_key(e):
+        """does `e` denote the tested key (literally, or after inlining single-definition locals on both sides)?"""
+        if ast.dump(e) == ast.dump(key_expr):
+            return True
+        try:
+            return ast.dump(inline_locals(ctx, f, e)) == ast.dump(inline_locals(ctx, f, key_expr))
+        except AnalysisError:
+            return False
 
-    # names
+    # the two branches as regions of the control-flow graph: everything reachable from the test's outcome within one iteration of the
+    # edge loop (so `if k in col: merge else: create`, `if k not in col: create; continue` + merge and the mirrored forms are alike)
+    def region(label):
+        out, seen, stack = [], set(), list(cfg.successors(t, label))
+        while stack:
+            n = stack.pop()
+            if n is outer or not isinstance(n, ast.stmt) or id(n) in seen or not in_body(outer, n):
+                continue
+            seen.add(id(n))
+            out.append(n)
+            for x in cfg.g.successors(n):
+                if "back" in cfg.g[n][x]["labels"] and x is outer:
+                    continue
+                stack.append(x)
+        return sorted(out, key=lambda n: (n.lineno, n.col_offset))
+    merge_region, create_region = (region("true"), region("false")) if positive else (region("false"), region("true"))
+    merge_label = "true" if positive else "false"
+    ctx.require(merge_region and create_region, f"{rid}: the merge test has an empty branch (unrecognised form)")
+    shared = {id(n) for n in merge_region} & {id(n) for n in create_region}
+
+    def inside(reg, n):
+        return any(x is n for x in reg)
+
+    def within(loop, n):
+        return in_body(loop, n)
+
     def sub_key(e):
-        """X[k] -> (X name, key const | key Name)"""
-        if isinstance(e, ast.Subscript) and isinstance(e.value, ast.Name):
+        """X[k] -> (base text, key const | key Name, base node); X is a local name or directly `col[<key>]`"""
+        if isinstance(e, ast.Subscript) and (isinstance(e.value, ast.Name) or (isinstance(e.value, ast.Subscript) and isinstance(e.value.value, ast.Name)
+                                                                             and e.value.value.id == col)):
+            base = e.value.id if isinstance(e.value, ast.Name) else f"{col}[..]"
             if isinstance(e.slice, ast.Constant):
-                return e.value.id, ("const", e.slice.value)
+                return base, ("const", e.slice.value), e.value
             if isinstance(e.slice, ast.Name):
-                return e.value.id, ("name", e.slice.id)
-            return e.value.id, ("expr", ast.dump(e.slice))
-        return None, None
+                return base, ("name", e.slice.id), e.value
+            return base, ("expr", ast.dump(e.slice)), e.value
+        return None, None, None
 
-    def attr_loops(body):
-        return [s for b in body for s in ([b] + [x for x in walk_shallow(b) if isinstance(x, ast.stmt)]) if isinstance(s, ast.For)
-                and isinstance(s.iter, ast.Call) and call_name(s.iter) == "items" and isinstance(s.target, ast.Tuple) and len(s.target.elts) == 2]
+    def attr_loops(reg):
+        return [s for s in reg if isinstance(s, ast.For) and isinstance(s.iter, ast.Call) and call_name(s.iter) == "items"
+                and isinstance(s.target, ast.Tuple) and len(s.target.elts) == 2]
+
+    paths = [p for p in enumerate_paths(cfg) if any(n is t for n in p)]
+
+    def takes(p, label):
+        i = next(k for k, n in enumerate(p) if n is t)
+        return i + 1 < len(p) and label in cfg.g[t][p[i + 1]]["labels"]
 
     # ---------------- merging path ----------------
-    loops = attr_loops(merge_body)
+    loops = attr_loops(merge_region)
     ctx.require(len(loops) == 1, f"{rid}: expected one loop over the edge attributes on the merging path, found {len(loops)}")
     aloop = loops[0]
     kname, vname = (e.id if isinstance(e, ast.Name) else None for e in aloop.target.elts)
@@ -496,42 +609,40 @@ def r3_group_edges(ctx, rid):
     ctx.require(kname and vname and edict, f"{rid}: unrecognised attribute loop header {norm(aloop)}")
 
     def classify_merge(s):
-        """('src'|'tgt'|'attr'|'other-grow', call) for a statement that grows a list of the group's dict"""
-        if not (isinstance(s, ast.Expr) and isinstance(s.value, ast.Call)) and not isinstance(s, ast.AugAssign):
-            return None
+        """('src'|'tgt'|'attr'|'other'|'unknown', base, grown-by expr, kind, base node) for a statement that grows a list of the group's dict"""
         if isinstance(s, ast.AugAssign):
-            recv, arg, kind = s.target, s.value, "extend"
-        else:
-            c = s.value
-            if not (isinstance(c.func, ast.Attribute) and c.func.attr in ("extend", "append") and len(c.args) == 1):
+            if not isinstance(s.op, ast.Add):
                 return None
+            recv, arg, kind = s.target, s.value, "extend"
+        elif isinstance(s, ast.Expr) and isinstance(s.value, ast.Call):
+            c = s.value
+            if not (isinstance(c.func, ast.Attribute) and c.func.attr in ("extend", "append", "insert", "update", "setdefault")):
+                return None
+            if c.func.attr not in ("extend", "append") or len(c.args) != 1:
+                return ("unknown", None, None, c.func.attr, None)
             recv, arg, kind = c.func.value, c.args[0], c.func.attr
-        base, key = sub_key(recv)
-        if base is None:
+        else:
             return None
+        base, key, bnode = sub_key(recv)
+        if base is None:
+            return ("unknown", None, arg, kind, None) if isinstance(recv, ast.Subscript) else None
         if key == ("const", "source_idx"):
-            return ("src", base, arg, kind)
+            return ("src", base, arg, kind, bnode)
         if key == ("const", "target_idx"):
-            return ("tgt", base, arg, kind)
-        if key == ("name", kname) and inside(aloop.body, s):
-            return ("attr", base, arg, kind)
-        return ("other", base, arg, kind)
+            return ("tgt", base, arg, kind, bnode)
+        if key == ("name", kname) and within(aloop, s):
+            return ("attr", base, arg, kind, bnode)
+        return ("other", base, arg, kind, bnode)
 
-    paths = [p for p in enumerate_paths(cfg) if any(n is t for n in p)]
-    merge_paths = []
-    for p in paths:
-        i = next(k for k, n in enumerate(p) if n is t)
-        if i + 1 < len(p) and isinstance(p[i + 1], ast.stmt) and inside(merge_body, p[i + 1]):
-            merge_paths.append(p)
+    merge_paths = [p for p in paths if takes(p, merge_label)]
     ctx.require(merge_paths, f"{rid}: no path through the merging branch")
-    base_names = set()
     worst = None
+    unknown = [norm(s) for s in merge_region if (classify_merge(s) or ("",))[0] == "unknown"]
     for p in merge_paths:
-        ev = [classify_merge(s) for s in p if isinstance(s, ast.stmt) and inside(merge_body, s)]
+        ev = [classify_merge(s) for s in p if isinstance(s, ast.stmt) and inside(merge_region, s)]
         ev = [e for e in ev if e]
         kinds = [e[0] for e in ev]
-        base_names |= {e[1] for e in ev}
-        took_loop = any(isinstance(s, ast.stmt) and inside(aloop.body, s) for s in p)
+        took_loop = any(isinstance(s, ast.stmt) and within(aloop, s) for s in p)
         want_attr = 1 if took_loop else 0
         problem = None
         if kinds.count("src") != 1:
@@ -545,6 +656,8 @@ def r3_group_edges(ctx, rid):
         if problem and worst is None:
             worst = (problem, cfg.path_str(p), kinds)
     facts = {"merge_paths": len(merge_paths)}
+    if worst and unknown:
+        raise AnalysisError(f"{rid}: the merging branch of _group_edges grows lists in a form that is not recognised: {unknown}")
     if worst:
         facts.update(witness=worst[1], events=worst[2])
         ctx.violation(rid, f, t, f"on the merging path {worst[0]} for one merged edge: the per-edge lists of the group (source_idx, target_idx, "
@@ -553,28 +666,37 @@ def r3_group_edges(ctx, rid):
         ctx.ok(rid, f, t, "on every path through the merging branch source_idx, target_idx and each attribute list are extended exactly once", facts,
                label="merge: once per list")
     # the extended dict is the group registered under the tested key
-    bds = [s for b in merge_body for s in ([b] + [x for x in walk_shallow(b) if isinstance(x, ast.stmt)]) if isinstance(s, ast.Assign)
-           and isinstance(s.value, ast.Subscript) and isinstance(s.value.value, ast.Name) and s.value.value.id == col]
-    if len(base_names) == 1 and len(bds) == 1 and isinstance(bds[0].targets[0], ast.Name) and bds[0].targets[0].id in base_names \
-            and ast.dump(bds[0].value.slice) == key_dump:
+    evs = [(s, classify_merge(s)) for s in merge_region]
+    evs = [(s, c) for s, c in evs if c and c[0] in ("src", "tgt", "attr", "other")]
+    base_names = {c[1] for _, c in evs}
+    direct = [c[4] for _, c in evs if isinstance(c[4], ast.Subscript)]
+    bds = [s for s in merge_region if isinstance(s, ast.Assign) and isinstance(s.value, ast.Subscript) and isinstance(s.value.value, ast.Name)
+           and s.value.value.id == col and len(s.targets) == 1 and isinstance(s.targets[0], ast.Name)]
+    if len(base_names) == 1 and direct and len(direct) == len(evs):
+        if all(same_key(d.slice) for d in direct):
+            ctx.ok(rid, f, t, "the lists that are extended belong to the group found under the tested key", label="merge: group identity")
+        else:
+            ctx.violation(rid, f, t, f"the extended group `{norm(direct[0])}` is not the one found by the membership test `{norm(t)}`", label="merge: group identity")
+    elif len(base_names) == 1 and len(bds) == 1 and not direct and bds[0].targets[0].id in base_names and same_key(bds[0].value.slice):
         ctx.ok(rid, f, bds[0], "the lists that are extended belong to the group found under the tested key", label="merge: group identity")
-    elif len(base_names) == 1 and len(bds) == 1:
+    elif len(base_names) == 1 and len(bds) == 1 and not direct and bds[0].targets[0].id in base_names \
+            and type(bds[0].value.slice) is type(key_expr) and isinstance(key_expr, (ast.Name, ast.Tuple)):
         ctx.violation(rid, f, bds[0], f"the extended group `{norm(bds[0].value)}` is not the one found by the membership test `{norm(t)}`", label="merge: group identity")
     else:
         raise AnalysisError(f"{rid}: cannot identify the group dictionary on the merging path (bases {sorted(base_names)})")
     # lock-step lengths: attributes replicated len(s_idx) times, source_idx extended by s_idx
     src_ev = tgt_ev = attr_ev = None
-    for b in merge_body:
-        for s in [b] + [x for x in walk_shallow(b) if isinstance(x, ast.stmt)]:
-            c = classify_merge(s)
-            if c and c[0] == "src":
-                src_ev = (s, c)
-            if c and c[0] == "tgt":
-                tgt_ev = (s, c)
-            if c and c[0] == "attr":
-                attr_ev = (s, c)
+    for s, c in evs:
+        if c[0] == "src":
+            src_ev = (s, c)
+        if c[0] == "tgt":
+            tgt_ev = (s, c)
+        if c[0] == "attr":
+            attr_ev = (s, c)
     if src_ev and attr_ev:
         _lockstep(ctx, rid, f, attr_ev, src_ev, vname, "merge")
+    elif unknown:
+        raise AnalysisError(f"{rid}: the merging branch of _group_edges grows lists in a form that is not recognised: {unknown}")
     else:
         ctx.violation(rid, f, t, f"the merging branch has no growth of {'source_idx' if not src_ev else 'the edge attribute lists'}: the per-edge lists cannot "
                                  f"stay in lock-step", label="merge: lock-step lengths")
@@ -584,39 +706,52 @@ def r3_group_edges(ctx, rid):
                                          f"concatenated", label=f"merge: {nm} concatenated")
 
     # ---------------- creating path ----------------
-    cloops = attr_loops(create_body)
+    cloops = attr_loops(create_region)
     ctx.require(len(cloops) == 1, f"{rid}: expected one loop over the edge attributes on the creating path, found {len(cloops)}")
     cloop = cloops[0]
     ck, cv = (e.id if isinstance(e, ast.Name) else None for e in cloop.target.elts)
     cdict = cloop.iter.func.value.id if isinstance(cloop.iter.func.value, ast.Name) else None
 
     def classify_create(s):
-        if not isinstance(s, ast.Assign) or len(s.targets) != 1:
-            return None
-        base, key = sub_key(s.targets[0])
-        if base is None:
-            return None
-        if base == col:
-            return ("register", s)
-        if key == ("const", "source_idx"):
-            return ("src", s)
-        if key == ("const", "target_idx"):
-            return ("tgt", s)
-        if key == ("name", ck) and inside(cloop.body, s):
-            return ("attr", s)
-        return None
-    create_paths = []
-    for p in paths:
-        i = next(k for k, n in enumerate(p) if n is t)
-        if i + 1 < len(p) and isinstance(p[i + 1], ast.stmt) and inside(create_body, p[i + 1]):
-            create_paths.append(p)
+        """[(kind, stmt, target, value)] for the stores of one statement (`a['source_idx'], a['target_idx'] = x, y` makes two)"""
+        if not isinstance(s, ast.Assign):
+            if isinstance(s, ast.Expr) and isinstance(s.value, ast.Call) and isinstance(s.value.func, ast.Attribute) \
+                    and s.value.func.attr in ("update", "setdefault", "__setitem__"):
+                return [("unknown", s, None, None)]
+            return []
+        pairs = []
+        for tg in s.targets:
+            if isinstance(tg, (ast.Tuple, ast.List)) and isinstance(s.value, (ast.Tuple, ast.List)) and len(tg.elts) == len(s.value.elts):
+                pairs += list(zip(tg.elts, s.value.elts))
+            elif isinstance(tg, (ast.Tuple, ast.List)):
+                pairs += [(x, None) for x in tg.elts]
+            else:
+                pairs.append((tg, s.value))
+        out = []
+        for tg, val in pairs:
+            base, key, _ = sub_key(tg)
+            if base is None:
+                continue
+            if val is None:
+                out.append(("unknown", s, tg, None))
+            elif base == col:
+                out.append(("register", s, tg, val))
+            elif key == ("const", "source_idx"):
+                out.append(("src", s, tg, val))
+            elif key == ("const", "target_idx"):
+                out.append(("tgt", s, tg, val))
+            elif key == ("name", ck) and within(cloop, s):
+                out.append(("attr", s, tg, val))
+        return out
+    create_label = "false" if positive else "true"
+    create_paths = [p for p in paths if takes(p, create_label)]
     ctx.require(create_paths, f"{rid}: no path through the creating branch")
+    c_unknown = [norm(s) for s in create_region for e in classify_create(s) if e[0] == "unknown"]
     worst = None
     for p in create_paths:
-        ev = [classify_create(s) for s in p if isinstance(s, ast.stmt) and inside(create_body, s)]
-        ev = [e for e in ev if e]
+        ev = [e for s in p if isinstance(s, ast.stmt) and inside(create_region, s) and id(s) not in shared for e in classify_create(s)]
         kinds = [e[0] for e in ev]
-        took_loop = any(isinstance(s, ast.stmt) and inside(cloop.body, s) for s in p)
+        took_loop = any(isinstance(s, ast.stmt) and within(cloop, s) for s in p)
         problem = None
         for k, nm in (("src", "source_idx"), ("tgt", "target_idx"), ("register", "the group")):
             if kinds.count(k) != 1 and problem is None:
@@ -627,6 +762,8 @@ def r3_group_edges(ctx, rid):
             problem = "the index lists are stored before the attribute loop runs, so the loop replicates them like an attribute ([list] * n)"
         if problem and worst is None:
             worst = (problem, cfg.path_str(p), kinds)
+    if worst and c_unknown:
+        raise AnalysisError(f"{rid}: the creating branch of _group_edges fills the new group in a form that is not recognised: {c_unknown}")
     if worst:
         ctx.violation(rid, f, t, f"on the creating path {worst[0]}: the per-edge lists of a new group do not start out with one entry per edge each",
                       {"witness": worst[1], "events": worst[2]}, label="create: once per list")
@@ -634,29 +771,30 @@ def r3_group_edges(ctx, rid):
         ctx.ok(rid, f, t, "on every path through the creating branch each list is initialised exactly once, index lists after the attribute replication",
                {"create_paths": len(create_paths)}, label="create: once per list")
     c_src = c_tgt = c_attr = c_reg = None
-    for b in create_body:
-        for s in [b] + [x for x in walk_shallow(b) if isinstance(x, ast.stmt)]:
-            c = classify_create(s)
-            if c:
-                if c[0] == "src":
-                    c_src = s
-                elif c[0] == "tgt":
-                    c_tgt = s
-                elif c[0] == "attr":
-                    c_attr = s
-                elif c[0] == "register":
-                    c_reg = s
+    for s in create_region:
+        for e in classify_create(s):
+            if e[0] == "src":
+                c_src = e
+            elif e[0] == "tgt":
+                c_tgt = e
+            elif e[0] == "attr":
+                c_attr = e
+            elif e[0] == "register":
+                c_reg = e
     ctx.require(c_src is not None and c_tgt is not None and c_attr is not None and c_reg is not None, f"{rid}: creating path has an unrecognised form")
     # registration key == tested key, registered dict == the one initialised
-    base_c, _ = sub_key(c_src.targets[0])
-    if ast.dump(c_reg.targets[0].slice) == key_dump and isinstance(c_reg.value, ast.Name) and c_reg.value.id == base_c == cdict:
-        ctx.ok(rid, f, c_reg, "the new group is registered under the key the membership test uses", label="create: group identity")
+    base_c, _, _ = sub_key(c_src[2])
+    reg_st, reg_tg, reg_val = c_reg[1], c_reg[2], c_reg[3]
+    if same_key(reg_tg.slice) and isinstance(reg_val, ast.Name) and reg_val.id == base_c == cdict:
+        ctx.ok(rid, f, reg_st, "the new group is registered under the key the membership test uses", label="create: group identity")
+    elif isinstance(reg_val, ast.Name) and (type(reg_tg.slice) is type(key_expr) and isinstance(key_expr, (ast.Name, ast.Tuple)) or same_key(reg_tg.slice)):
+        ctx.violation(rid, f, reg_st, f"the new group is registered as `{norm(reg_st)}`, which does not match the membership test `{norm(t)}` / the "
+                                      f"dictionary that was initialised: later edges of the same group would not be merged into it", label="create: group identity")
     else:
-        ctx.violation(rid, f, c_reg, f"the new group is registered as `{norm(c_reg)}`, which does not match the membership test `{norm(t)}` / the "
-                                     f"dictionary that was initialised: later edges of the same group would not be merged into it", label="create: group identity")
+        raise AnalysisError(f"{rid}: cannot compare the registration `{norm(reg_st)}` with the membership test `{norm(t)}` (unrecognised form)")
     # fresh copies of the index lists
-    for s, nm in ((c_src, "source_idx"), (c_tgt, "target_idx")):
-        v = s.value
+    for (_, s, tg, v), nm in ((c_src, "source_idx"), (c_tgt, "target_idx")):
+        what = norm(s) if len(classify_create(s)) == 1 else f"{norm(tg)} = {norm(v)}"
         fresh = (isinstance(v, ast.Call) and call_name(v) in ("list", "deepcopy", "copy", "array", "tolist")) or isinstance(v, (ast.List, ast.ListComp)) \
             or (isinstance(v, ast.Subscript) and isinstance(v.slice, ast.Slice))
         if fresh:
@@ -669,8 +807,8 @@ def r3_group_edges(ctx, rid):
                 ctx.violation(rid, f, s, f"the group's {nm} is the list object stored in _vectorization_indices (`{norm(v)}`): extending it for the next merged "
                                          f"edge rewrites the vectorization index of a node variable", label=f"create: {nm} is a copy")
             else:
-                raise AnalysisError(f"{rid}: cannot decide whether `{norm(s)}` stores a fresh list")
-    _lockstep(ctx, rid, f, (c_attr, ("attr", None, c_attr.value, "assign")), (c_src, ("src", None, c_src.value, "assign")), cv, "create")
+                raise AnalysisError(f"{rid}: cannot decide whether `{what}` stores a fresh list")
+    _lockstep(ctx, rid, f, (c_attr[1], ("attr", None, c_attr[3], "assign")), (c_src[1], ("src", None, c_src[3], "assign")), cv, "create")
 
 
 def _may_alias_indices(ctx, f, v):
@@ -706,8 +844,8 @@ def _strip_copy(e):
 
 def _lockstep(ctx, rid, f, attr_ev, src_ev, vname, which):
     """attribute lists grow by [val] * L with L == len(<what source_idx grows by>)"""
-    s_attr, (_, _, a_arg, _) = attr_ev
-    s_src, (_, _, s_arg, _) = src_ev
+    s_attr, a_arg = attr_ev[0], attr_ev[1][2]
+    s_src, s_arg = src_ev[0], src_ev[1][2]
     a_val = _inline(ctx, f, a_arg)
     rep = None
     if isinstance(a_val, ast.BinOp) and isinstance(a_val.op, ast.Mult):
@@ -820,6 +958,31 @@ def _feasible(call: ast.Call, fi) -> bool:
     return has_value_return or abstract
 
 
+def _derives_from_entry(rd, inner, name_node, k_op, depth=0):
+    """Is the value of `name_node` on every path the operator name of the current entry of the ranges loop `inner`, or computed
+    from it inside that loop (a re-labelling: re-binding of the loop variable, a new local, a conditional expression ...)?
+    True / False / None (a definition of unrecognised form)."""
+    defs = rd.defs_reaching(name_node)
+    if not defs or depth > 4:
+        return False
+    for d in defs:
+        if d is inner:
+            if name_node.id != k_op:
+                return False
+            continue
+        if isinstance(d, ast.arguments) or not in_body(inner, d):
+            return False                      # bound outside this entry's iteration
+        if not isinstance(d, (ast.Assign, ast.AnnAssign)):
+            return None
+        val = assigned_value(d, name_node.id)
+        if val is None:
+            return None
+        got = [_derives_from_entry(rd, inner, n, k_op, depth + 1) for n in ast.walk(val) if isinstance(n, ast.Name) and isinstance(n.ctx, ast.Load)]
+        if not any(g is True for g in got):
+            return None if any(g is None for g in got) else False
+    return True
+
+
 def r4_node_ranges(ctx, rid):
     cls = ctx.repo.get_class(FE, "CircuitTemplate")
     n_inst = 0
@@ -916,8 +1079,9 @@ def r4_node_ranges(ctx, rid):
             # (c) op/var parts and the (start, stop) pair come from the same entry
             label_c = f"entry pairing: {norm(st)}"
             var_ok = holes[2].id == k_var and rd.defs_reaching(holes[2]) == [inner]
-            op_defs = rd.defs_reaching(holes[1])
-            op_ok = holes[1].id == k_op and inner in op_defs and all(d is inner or (isinstance(d, ast.Assign) and in_body(inner, d)) for d in op_defs)
+            op_ok = _derives_from_entry(rd, inner, holes[1], k_op)
+            if op_ok is None:
+                raise AnalysisError(f"{rid}: cannot follow how the key's operator part `{holes[1].id}` is computed in {f.qual} (unrecognised form)")
             v = st.value
             core = v
             while isinstance(core, ast.Call) and call_name(core) in ("list", "asarray", "array") and core.args:
@@ -949,76 +1113,224 @@ def r5_index_roles(ctx, rid):
 
 
 
+_FINITE_CALLS = {"int", "len", "float", "abs", "min", "max", "sum", "sorted", "set", "frozenset", "list", "tuple", "range", "arange", "bool"}
+
+
+def _mentions(e, name):
+    return any(isinstance(n, ast.Name) and n.id == name for n in ast.walk(e))
+
+
+def _range_of(e, length_name):
+    """range(n) / arange(n) / arange(0, n) / list(...) / np.asarray(...) of one of these, n being the length name"""
+    while isinstance(e, ast.Call) and call_name(e) in ("list", "tuple", "asarray", "array") and len(e.args) == 1:
+        e = e.args[0]
+    if isinstance(e, ast.Call) and call_name(e) in ("range", "arange") and not e.keywords:
+        args = e.args
+        if len(args) == 2 and isinstance(args[0], ast.Constant) and args[0].value == 0:
+            args = args[1:]
+        return len(args) == 1 and isinstance(args[0], ast.Name) and args[0].id == length_name
+    return False
+
+
+def _whole_list(e, idx_name):
+    """idx / list(idx) / tuple(idx) / np.asarray(idx)"""
+    while isinstance(e, ast.Call) and call_name(e) in ("list", "tuple", "asarray", "array") and len(e.args) == 1:
+        e = e.args[0]
+    return isinstance(e, ast.Name) and e.id == idx_name
+
+
+def _elementwise_mismatch(cfg, st, idx_name):
+    """statement `st` is executed only inside a loop over the index list and only when an element differs from its position"""
+    loops = [a for a in _anc(st) if isinstance(a, ast.For) and _mentions(a.iter, idx_name)]
+    if not loops:
+        return False
+    for t, pol in _R.path_literals(cfg, st):
+        if isinstance(t, ast.Compare) and len(t.ops) == 1 and any(contains(l, t) for l in loops):
+            if (isinstance(t.ops[0], ast.NotEq) and pol) or (isinstance(t.ops[0], ast.Eq) and not pol):
+                return True
+    return False
+
+
+def _identity_proof(ctx, fi, e, idx_name, length_name, depth=0):
+    """Does the truth of expression `e` (in function fi) prove that the index list equals [0, 1, .., length-1] element by element?
+    Returns a description or None."""
+    if depth > 3:
+        return None
+    cfg = ctx.cfg(fi)
+    if isinstance(e, ast.Compare) and len(e.ops) == 1 and isinstance(e.ops[0], ast.Eq):
+        for x, y in ((e.left, e.comparators[0]), (e.comparators[0], e.left)):
+            if _whole_list(x, idx_name) and _range_of(y, length_name):
+                return f"list equality with range({length_name})"
+    if isinstance(e, ast.Call) and call_name(e) == "array_equal" and len(e.args) == 2:
+        for x, y in ((e.args[0], e.args[1]), (e.args[1], e.args[0])):
+            if _whole_list(x, idx_name) and _range_of(y, length_name):
+                return f"array_equal with arange({length_name})"
+    if isinstance(e, ast.Call) and call_name(e) == "all" and len(e.args) == 1:
+        gen = e.args[0]
+        if isinstance(gen, ast.Call) and call_name(gen) in ("list", "tuple") and len(gen.args) == 1:
+            gen = gen.args[0]
+        if isinstance(gen, (ast.GeneratorExp, ast.ListComp)) and len(gen.generators) == 1 and not gen.generators[0].ifs \
+                and _mentions(gen.generators[0].iter, idx_name) and isinstance(gen.elt, ast.Compare) and len(gen.elt.ops) == 1 \
+                and isinstance(gen.elt.ops[0], ast.Eq):
+            return "all(element == position)"
+        if isinstance(gen, ast.Compare) and len(gen.ops) == 1 and isinstance(gen.ops[0], ast.Eq):
+            for x, y in ((gen.left, gen.comparators[0]), (gen.comparators[0], gen.left)):
+                if _whole_list(x, idx_name) and _range_of(y, length_name):
+                    return f"all(idx == arange({length_name}))"
+    if isinstance(e, ast.Name) and getattr(e, "_parent", None) is not None:
+        defs = ctx.rd(fi).defs_reaching(e)
+        vals = [assigned_value(d, e.id) if isinstance(d, (ast.Assign, ast.AnnAssign)) else None for d in defs]
+        if len(vals) == 1 and vals[0] is not None and not isinstance(vals[0], ast.Constant):
+            return _identity_proof(ctx, fi, vals[0], idx_name, length_name, depth + 1)
+        # flag form: starts True, cleared inside a loop over the list where an element differs from its position
+        if vals and all(isinstance(v, ast.Constant) and isinstance(v.value, bool) for v in vals):
+            trues = [d for d, v in zip(defs, vals) if v.value is True]
+            falses = [d for d, v in zip(defs, vals) if v.value is False]
+            if trues and falses and all(_elementwise_mismatch(cfg, d, idx_name) for d in falses) \
+                    and not any(_anc_is_loop_over(d, idx_name) for d in trues):
+                return "element-wise comparison loop"
+        return None
+    if isinstance(e, ast.Call):
+        g = _R.private_helper(ctx, fi, e)
+        binding = _R.bind_args(e, g) if g is not None else None
+        if binding:
+            p_idx = [p for p, a in binding.items() if isinstance(a, ast.Name) and a.id == idx_name]
+            p_len = [p for p, a in binding.items() if isinstance(a, ast.Name) and a.id == length_name]
+            if len(p_idx) == 1 and len(p_len) == 1:
+                gcfg = ctx.cfg(g)
+                rets = [r for r in gcfg.stmts() if isinstance(r, ast.Return)]
+                if rets and all(r.value is not None for r in rets):
+                    consts = [r for r in rets if isinstance(r.value, ast.Constant) and isinstance(r.value.value, bool)]
+                    if len(consts) == len(rets):
+                        # for a, b in zip(idx, range(n)): if a != b: return False ... return True
+                        falses = [r for r in rets if r.value.value is False]
+                        trues = [r for r in rets if r.value.value is True]
+                        if falses and len(trues) == 1 and all(_elementwise_mismatch(gcfg, r, p_idx[0]) for r in falses) \
+                                and not _anc_is_loop_over(trues[0], p_idx[0]) and not any(True for _ in _guards_of(gcfg, trues[0])):
+                            return f"element-wise comparison loop in {g.qualname}"
+                        return None
+                    if len(rets) == 1:
+                        inner = _identity_proof(ctx, g, rets[0].value, p_idx[0], p_len[0], depth + 1)
+                        return f"{inner} in {g.qualname}" if inner else None
+    return None
+
+
+def _anc_is_loop_over(st, idx_name):
+    return any(isinstance(a, ast.For) and _mentions(a.iter, idx_name) for a in _anc(st))
+
+
+def _guards_of(cfg, st):
+    """tests that decide whether `st` runs (other than loops being exhausted)"""
+    for t, pol in _R.path_literals(cfg, st):
+        yield t
+
+
 def r6_indexing_dropped_only_for_identity(ctx, rid):
     """_get_indexed_var_str may return the bare variable for an index *list* (no indexing emitted) only when the list is
     exactly [0, 1, .., n-1]: with vectorize=True a full-length list that is a permutation must still be applied, otherwise
-    inputs land on the wrong members of the merged population (vectorize=False has scalars and is unaffected)."""
-    import ast as _ast
-    from engine import AnalysisError as _AE
-    from engine.util import call_name as _cn
-    from engine.srcmodel import norm as _norm, walk_shallow as _ws
-    f = ctx.repo.get_func("pyrates/ir/circuit.py", "_get_indexed_var_str")
-    if f.params[:2] != ["var", "idx"]:
-        raise _AE(f"{rid}: signature of _get_indexed_var_str changed")
+    inputs land on the wrong members of the merged population (vectorize=False has scalars and is unaffected).
+
+    Every `return <variable parameter>` (also as an arm of a conditional expression) is classified by the tests that hold on the way
+    to it (dominating ifs with their outcome, early returns, conditional expressions): tuple/str cases and the empty list are not
+    index lists; everything else needs an element-wise identity proof among those tests (list equality with range(n), array_equal,
+    all(a == b ...), a flag cleared in a comparison loop, or a private helper doing one of these)."""
+    f = ctx.repo.get_func(IR, "_get_indexed_var_str")
+    if len(f.params) < 3:
+        raise AnalysisError(f"{rid}: signature of _get_indexed_var_str changed")
+    pv, pi, pl = f.params[:3]
     cfg = ctx.cfg(f)
-    # the list branch: statements under `if len(idx) > 0:`
-    branch = [st for st in f.node.body if isinstance(st, _ast.If) and _ast.unparse(st.test).replace(" ", "") == "len(idx)>0"]
-    if len(branch) != 1:
-        raise _AE(f"{rid}: list branch `if len(idx) > 0:` of _get_indexed_var_str not recognised")
-    rets = [n for n in _ast.walk(branch[0]) if isinstance(n, _ast.Return) and isinstance(n.value, _ast.Name) and n.value.id == "var"]
-    if not rets:
-        ctx.ok(rid, f, branch[0], "an index list is always applied (no shortcut)", label="bare variable only for the identity index list")
+    rd = ctx.rd(f)
+    label = "bare variable only for the identity index list"
+
+    def arms(e):
+        if isinstance(e, ast.IfExp):
+            yield from arms(e.body)
+            yield from arms(e.orelse)
+        else:
+            yield e
+
+    def type_test(t):
+        """'tuple' / 'str' / 'list' when t tests the type of the index argument"""
+        if isinstance(t, ast.Compare) and len(t.ops) == 1 and isinstance(t.ops[0], (ast.Is, ast.Eq)) and isinstance(t.left, ast.Call) \
+                and call_name(t.left) == "type" and len(t.left.args) == 1 and isinstance(t.left.args[0], ast.Name) and t.left.args[0].id == pi \
+                and isinstance(t.comparators[0], ast.Name):
+            return t.comparators[0].id
+        if isinstance(t, ast.Call) and call_name(t) == "isinstance" and len(t.args) == 2 and isinstance(t.args[0], ast.Name) and t.args[0].id == pi \
+                and isinstance(t.args[1], ast.Name):
+            return t.args[1].id
+        return None
+
+    def nonempty_test(t):
+        """True if t means 'the list has elements', False if it means 'the list is empty', None otherwise"""
+        if isinstance(t, ast.Name) and t.id == pi:
+            return True
+        if isinstance(t, ast.Call) and call_name(t) == "len" and len(t.args) == 1 and isinstance(t.args[0], ast.Name) and t.args[0].id == pi:
+            return True
+        if isinstance(t, ast.Compare) and len(t.ops) == 1:
+            l, op, r = t.left, t.ops[0], t.comparators[0]
+            if isinstance(l, ast.Constant) and type(op) in _FLIP:
+                l, r, op = r, l, _FLIP[type(op)]()
+            if isinstance(l, ast.Call) and call_name(l) == "len" and len(l.args) == 1 and isinstance(l.args[0], ast.Name) and l.args[0].id == pi \
+                    and isinstance(r, ast.Constant) and isinstance(r.value, int):
+                table = {(ast.Gt, 0): True, (ast.GtE, 1): True, (ast.NotEq, 0): True, (ast.Eq, 0): False, (ast.Lt, 1): False, (ast.LtE, 0): False}
+                return table.get((type(op), r.value))
+        return None
+
+    sites = []
+    for r in cfg.stmts():
+        if isinstance(r, ast.Return) and r.value is not None:
+            for arm in arms(r.value):
+                if isinstance(arm, ast.Name) and arm.id == pv and all(isinstance(d, ast.arguments) for d in rd.defs_reaching(arm)):
+                    sites.append((r, arm))
+    if not sites:
+        ctx.ok(rid, f, f.node, "an index list is always applied (no shortcut)", label=label)
         return
-    for r in rets:
-        guards = [d for d in cfg.dominators(r) if isinstance(d, _ast.If) and d is not branch[0] and any(x is r for x in _ast.walk(d))]
-        text = " and ".join(_ast.unparse(g.test) for g in guards)
-        facts = {"guards": [_norm(g) for g in guards]}
+    n_list = 0
+    for r, arm in sites:
+        lits = _R.path_literals(cfg, r, arm)
+        kinds = [(type_test(t), pol) for t, pol in lits]
+        if any(k in ("tuple", "str") and pol for k, pol in kinds):
+            continue                                    # index range / name of an index variable: not an index list
+        if any(nonempty_test(t) is (not pol) for t, pol in lits if nonempty_test(t) is not None):
+            continue                                    # the empty index list
+        n_list += 1
+        facts = {"path_condition": [("" if pol else "not ") + norm(t) for t, pol in lits]}
         proof = None
-        for g in guards:
-            t = g.test
-            # (b) whole-list equality forms
-            for c in _ast.walk(t):
-                if isinstance(c, _ast.Compare) and len(c.ops) == 1 and isinstance(c.ops[0], _ast.Eq):
-                    sides = [_ast.unparse(c.left).replace(" ", ""), _ast.unparse(c.comparators[0]).replace(" ", "")]
-                    if any(sd in ("list(idx)", "idx") for sd in sides) and any("range(" in sd and "var_length" in sd for sd in sides):
-                        proof = "list equality with range(var_length)"
-                if isinstance(c, _ast.Call) and _cn(c) == "array_equal" and "idx" in _ast.unparse(c) and "var_length" in _ast.unparse(c):
-                    proof = "array_equal with arange(var_length)"
-                if isinstance(c, _ast.Call) and _cn(c) == "all" and c.args and isinstance(c.args[0], (_ast.GeneratorExp, _ast.ListComp)):
-                    gen = c.args[0]
-                    if "idx" in _ast.unparse(gen.generators[0].iter) and any(isinstance(k, _ast.Compare) and isinstance(k.ops[0], _ast.Eq) for k in _ast.walk(gen.elt)):
-                        proof = "all(element == position)"
-            # (a) flag form: `if identical:` where identical starts True and is cleared by an element-wise != inside a loop over idx
-            if isinstance(t, _ast.Name):
-                flag = t.id
-                inits = [x for x in _ast.walk(branch[0]) if isinstance(x, _ast.Assign) and any(isinstance(tt, _ast.Name) and tt.id == flag for tt in x.targets)]
-                set_true = [x for x in inits if isinstance(x.value, _ast.Constant) and x.value.value is True]
-                set_false = [x for x in inits if isinstance(x.value, _ast.Constant) and x.value.value is False]
-                loops = [l for l in _ast.walk(branch[0]) if isinstance(l, _ast.For) and "idx" in _ast.unparse(l.iter)
-                         and ("var_length" in _ast.unparse(l.iter) or "enumerate" in _ast.unparse(l.iter))]
-                ok_loop = False
-                for l in loops:
-                    for x in set_false:
-                        if any(y is x for y in _ast.walk(l)):
-                            conds = [d for d in _ast.walk(l) if isinstance(d, _ast.If) and any(y is x for y in _ast.walk(d))]
-                            if conds and any(isinstance(k, _ast.Compare) and isinstance(k.ops[0], _ast.NotEq) for k in _ast.walk(conds[0].test)):
-                                ok_loop = True
-                if set_true and set_false and ok_loop:
-                    proof = "element-wise comparison loop"
+        for t, pol in lits:
+            if pol:
+                proof = proof or _identity_proof(ctx, f, t, pi, pl)
         if proof:
-            ctx.ok(rid, f, r, f"indexing is dropped only after an element-wise identity proof ({proof})", facts,
-                   label="bare variable only for the identity index list")
+            ctx.ok(rid, f, r, f"indexing is dropped only after an element-wise identity proof ({proof})", facts, label=label)
             continue
-        finite = all(all(isinstance(n, (_ast.Name, _ast.Constant, _ast.Compare, _ast.BoolOp, _ast.BinOp, _ast.Call, _ast.Subscript, _ast.UnaryOp,
-                                         _ast.Load, _ast.And, _ast.Or, _ast.Eq, _ast.Add, _ast.Sub, _ast.USub, _ast.operator, _ast.cmpop, _ast.boolop,
-                                         _ast.unaryop, _ast.expr_context)) for n in _ast.walk(g.test)) for g in guards)
-        if guards and finite:
+        def case_test(t):
+            """a test that only selects the case (type of the argument, emptiness), alone or combined"""
+            if isinstance(t, ast.BoolOp):
+                return all(case_test(x) for x in t.values)
+            if isinstance(t, ast.UnaryOp) and isinstance(t.op, ast.Not):
+                return case_test(t.operand)
+            return type_test(t) is not None or nonempty_test(t) is not None
+        about = [(t, pol) for t, pol in lits if _mentions(t, pi) and not case_test(t)]
+        text = " and ".join(("" if pol else "not ") + ast.unparse(t) for t, pol in about) or "no test of the index list at all"
+
+        def finite(t):
+            for n in ast.walk(t):
+                if isinstance(n, ast.Call) and not (call_name(n) in _FINITE_CALLS and not isinstance(n.func, ast.Attribute)
+                                                    or (isinstance(n.func, ast.Attribute) and call_name(n) in ("arange", "prod", "sum", "min", "max"))):
+                    return False
+                if isinstance(n, (ast.BoolOp, ast.Lambda, ast.ListComp, ast.GeneratorExp, ast.SetComp, ast.DictComp, ast.Await, ast.NamedExpr)):
+                    return False
+                if isinstance(n, ast.Name) and n.id not in (pi, pl, pv) and n.id not in _FINITE_CALLS and n.id not in ("np", "_np", "numpy") \
+                        and getattr(n, "_parent", None) is not None and not all(isinstance(d, ast.arguments) for d in rd.defs_reaching(n)):
+                    return False                            # a computed local (flag, helper result): cannot judge it here
+            return True
+        if all(finite(t) for t, _ in about):
             ctx.violation(rid, f, r, f"the bare variable is returned for an index list under `{text}`, which inspects only the length / a few "
                                      f"elements: a full-length permutation (vectorised nodes addressed in another order) is mistaken for the identity "
-                                     f"and its indexing is dropped", facts, label="bare variable only for the identity index list")
+                                     f"and its indexing is dropped", facts, label=label)
         else:
-            raise _AE(f"{rid}: guard of `return var` in the list branch not recognised: {text!r}")
-
+            raise AnalysisError(f"{rid}: guard of `return {pv}` in the list branch not recognised: {text!r}")
+    if n_list == 0:
+        ctx.ok(rid, f, f.node, "the bare variable is never returned for a non-empty index list (no shortcut)", label=label)
 
 
 def r7_merge_key_is_the_operator_graph(ctx, rid):
